@@ -52,6 +52,12 @@ CHECKS = {
     "C08": (EX, "bounded-exhaustive enumeration of every unit pair with constructed less/greater/exactly-equal probes judged by exact rational amounts; all pairs of an object zoo for equality",
             "For all 37 040 ordered unit pairs, two amounts and probes physically less, greater (1e-6) and - where exact as rationals and in both float directions (12.5k pairs) - equal, the four order operators are evaluated in both operand orders on Scalar (all pairs) and FractionScalar (quick: 12 units per type; thorough: all) and compared with the exact base-unit amounts; all 36k ordered pairs of quantity types must raise TypeError; ==/!= over all ordered pairs of a 59-object zoo never raise, are reflexive, symmetric, mutually consistent and hash-consistent.",
             "near-ties differing only by rounding are excluded by construction (the property speaks of physical amounts)"),
+    "C09": (EX, "bounded-exhaustive enumeration of the complete product quantity pool x value-object shape x number type x expression on the real operators, judged by raw-number arithmetic and the dims model",
+            "Every combination of a quantity pool (simple, second category, affine, empty, unknown-with-caption and every ordered composing map of the depth-2 (quick) / depth-3 (thorough) derived-quantity graph) x 7 shapes (Scalar, Array and FixedArray over list/tuple/ndarray, lengths 0,1,3) x 13 python/numpy scalar types (+ float/int/0-d ndarrays for containers) x the ten expressions k*x x*k x/k x//k x+k k+x x-k k-x k/x k//x x 2 value assignments is executed; the result must be an object of x's class, keep x's quantity (reciprocal dimension and units for k/x, k//x) and hold the values of the same operation on raw numbers. thorough adds every unit of the table.",
+            "Scalar with an ndarray operand is outside the alphabet; float32/float16 operands compared at their precision"),
+    "C10": (EX, "bounded-exhaustive enumeration of quantity pairs x operators x container combinations x length pairs on the real Array operators, differential against the element-wise Scalar path",
+            "Every ordered pair of an 18-quantity pool (quick) / of all 101 depth-2 derived states (thorough) x {+ - * / //} x 9 list/tuple/ndarray container combinations x all 16 length pairs in 0..3 is executed: equal lengths must give exactly the element-wise Scalar values and quantity (and raise exactly when the Scalar path raises), unequal lengths must raise. GetValues(unit) is compared with Scalar.GetValue for every ordered unit pair of 6 (quick) / all (thorough) quantity types x containers x lengths incl. lists of tuples; FromScalars over every sequence of length 0..3 of 5 mixed-unit scalars x unit and category choices. The numpy length-1 broadcast (D15) is a recorded finding attributed by a defect model.",
+            "the Scalar path is the reference (judged by C03/C04); fixed element alphabets"),
 }
 
 NOT_YET = {}
